@@ -210,6 +210,11 @@ def shapes(tier):
     out.append(gshape("macro_rules_ty_fragment_debug", 'macro_rules! mk { ($t:ty) => { #[derive(derive_more::Debug)]\npub struct G<T>(pub $t, pub Option<$t>); }; }\nmk!(T);', "Debug",
                       "G(OnlyDebug(i), None)", "[b'G', b'(', b'?', b'a' + i, b',', b' ', b'N', b'o', b'n', b'e', b')']",
                       "Debug: field types pasted through `$t:ty`", exercises=["impl/src/fmt/mod.rs::ContainsGenericsExt", "impl/src/fmt/debug.rs::Expansion::generate_bounds"]))
+    # `.*` on a placeholder with an EXPLICIT argument still consumes the next implicit one for its precision (seed C04-star-precision-counter-only-for-implicit)
+    out.append(gshape("star_precision_on_named_placeholder", D + '#[display("{_0:.*}|{}", 2, _1)]\npub struct G<T, U>(pub T, pub U);', "Display",
+                      "G(OnlyDisplay(i), OnlyDisplay(j))", "[b'D', b'a' + i, b'|', b'D', b'a' + j]", "the implicit placeholder after `{_0:.*}` lands on `_1`: U: Display"))
+    out.append(gshape("star_precision_on_indexed_placeholder", D + 'pub enum G<T, U> {\n    #[display("{2:.*}|{:?}", 1, tag, val)]\n    A { tag: U, val: T },\n}', "Display",
+                      "G::A { tag: OnlyDebug(i), val: OnlyDisplay(j) }", "[b'D', b'a' + j, b'|', b'?', b'a' + i]", "`{2:.*}` takes its precision from argument 0, `{:?}` is argument 1 = `tag`: U: Debug, T: Display"))
     out = [x for x in out if x.name != "c04_enum_shared_with_field"]
     if tier == "quick":
         out = [s for s in out if s.quick]
